@@ -116,6 +116,8 @@ func init() {
 		8: mk("[-f] [-- X...]", &ref.Decl{Opts: []ref.OptDecl{fl("f")}, Args: []string{"X"}}),
 		// a command that itself declares an option named h / help (help requests still win)
 		12: mk("[-f] [-o]", &ref.Decl{Opts: []ref.OptDecl{fl("f"), vo("o")}}),
+		// a sub-command option spelled like the application's version flag (only below a root that declares Version)
+		13: mk("[-v] [X]", &ref.Decl{Opts: []ref.OptDecl{{Key: "v", Names: []string{"-v", "--version"}, Flag: true}}, Args: []string{"X"}}),
 		9: mk("[-h] [X]", &ref.Decl{Opts: []ref.OptDecl{{Key: "h", Names: []string{"-h", "--help"}, Flag: true}}, Args: []string{"X"}}),
 	}
 }
